@@ -3,9 +3,12 @@
 package breaker
 
 import (
+	"bytes"
 	"encoding/json"
 	"errors"
 	"fmt"
+	"runtime"
+	"sync"
 	"testing"
 	"time"
 
@@ -212,5 +215,137 @@ func TestVerifDriver(t *testing.T) {
 			<-call.done
 		}
 		return map[string]any{"rows": rows, "events": executed}
+	})
+}
+
+// ---------------------------------------------------------------- registry: concurrent first use
+
+// {"n": names per case, "g": goroutines per name, "pattern": entry kinds taken cyclically
+// (0 Get(name), 1 Do(name, ok), 2 DoWithAcceptable(name, acceptable error))}
+type verifRegCase struct {
+	N       int   `json:"n"`
+	G       int   `json:"g"`
+	Pattern []int `json:"pattern"`
+}
+
+func verifGoogle(b Breaker) *googleBreaker {
+	return b.(*circuitBreaker).throttle.(loggedThrottle).internalThrottle.(*googleBreaker)
+}
+
+// verifParkedInRLock counts goroutines blocked in lock.RLock() of Get (stack inspection).
+func verifParkedInRLock() int {
+	buf := make([]byte, 1<<20)
+	buf = buf[:runtime.Stack(buf, true)]
+	n := 0
+	for _, g := range bytes.Split(buf, []byte("\n\n")) {
+		if bytes.Contains(g, []byte("sync.(*RWMutex).RLock")) && bytes.Contains(g, []byte("breaker.Get(")) {
+			n++
+		}
+	}
+	return n
+}
+
+// TestVerifDriverReg: for N fresh names, G goroutines make their FIRST use of the name at the same
+// moment: the driver holds the registry's write lock until all of them are parked in Get's RLock
+// (so all of them miss and queue for the write lock), then releases it.  Per name it reports
+// [g, do-entrants, distinct breakers among all handles and the registered one, marks of the
+// do-entrants missing from the registered breaker's history, probe through another handle
+// rejected (after 50 failures recorded through the first handle, coin 0), probe through
+// Do(name) rejected, interleaving forced].
+func TestVerifDriverReg(t *testing.T) {
+	logx.Disable()
+	round := 0
+	verifdrv.Run(t, func(raw json.RawMessage) any {
+		var c verifRegCase
+		if err := json.Unmarshal(raw, &c); err != nil {
+			return map[string]any{"error": err.Error()}
+		}
+		timex.VerifSetNow(time.Hour)
+		defer timex.VerifClockOff()
+		round++
+		rows := make([][]int64, 0, c.N)
+		for j := 0; j < c.N; j++ {
+			name := fmt.Sprintf("verif-reg-%d-%d", round, j)
+			handles := make([]Breaker, c.G)
+			kinds := make([]int, c.G)
+			ndo := int64(0)
+			for i := range kinds {
+				kinds[i] = c.Pattern[(j+i)%len(c.Pattern)]
+				if kinds[i] != 0 {
+					ndo++
+				}
+			}
+			var wg sync.WaitGroup
+			lock.Lock()
+			for i := 0; i < c.G; i++ {
+				wg.Add(1)
+				go func(i int) {
+					defer wg.Done()
+					switch kinds[i] {
+					case 0:
+						handles[i] = Get(name)
+					case 1:
+						Do(name, func() error { return nil })
+					case 2:
+						DoWithAcceptable(name, func() error { return errVerifAcceptable },
+							func(err error) bool { return err == nil || err == errVerifAcceptable })
+					}
+				}(i)
+			}
+			forced := int64(0)
+			for spin := 0; spin < 2000; spin++ {
+				if verifParkedInRLock() >= c.G {
+					forced = 1
+					break
+				}
+				time.Sleep(50 * time.Microsecond)
+			}
+			lock.Unlock()
+			wg.Wait()
+			final := Get(name)
+			distinct := []*googleBreaker{verifGoogle(final)}
+			var first, last Breaker = final, final
+			seenFirst := false
+			for _, h := range handles {
+				if h == nil {
+					continue
+				}
+				if !seenFirst {
+					first, seenFirst = h, true
+				}
+				last = h
+				g := verifGoogle(h)
+				known := false
+				for _, d := range distinct {
+					if d == g {
+						known = true
+					}
+				}
+				if !known {
+					distinct = append(distinct, g)
+				}
+			}
+			_, total := verifGoogle(final).history()
+			// 50 failures through the first handle (coin 1-2^-53: never rejected) ...
+			srcA := &verifSource{next: 1<<53 - 1}
+			verifGoogle(first).proba = mathx.VerifNewProba(srcA)
+			for k := 0; k < 50; k++ {
+				first.Do(func() error { return errVerifUnacceptable })
+			}
+			// ... must be seen through the last handle and through the name (coin 0: rejected iff ratio > 0)
+			probe := func(do func(req func() error) error, g *googleBreaker) int64 {
+				g.proba = mathx.VerifNewProba(&verifSource{next: 0})
+				ran := false
+				err := do(func() error { ran = true; return nil })
+				if !ran && err == ErrServiceUnavailable {
+					return 1
+				}
+				return 0
+			}
+			pb := probe(last.Do, verifGoogle(last))
+			pd := probe(func(req func() error) error { return Do(name, req) }, verifGoogle(Get(name)))
+			rows = append(rows, []int64{int64(c.G), ndo, int64(len(distinct)), ndo - total, pb, pd, forced})
+		}
+		return map[string]any{"rows": rows}
 	})
 }
